@@ -38,6 +38,8 @@ pub struct GenCfg {
     pub template_names: bool,
     /// avoid constructs known to hit recorded findings (counted by the caller)
     pub avoid: Avoid,
+    /// top-level expressions never evaluate to procedures (their printed form is not in question anywhere)
+    pub printable_exprs: bool,
 }
 
 #[derive(Clone, Debug, Default)]
@@ -50,10 +52,10 @@ pub struct Avoid {
 
 impl GenCfg {
     pub fn core(depth: u32) -> GenCfg {
-        GenCfg { derived: false, ticks: true, tick_rate: 3, set: false, max_depth: depth, max_forms: 7, template_names: false, avoid: Avoid::default() }
+        GenCfg { derived: false, ticks: true, tick_rate: 3, set: false, max_depth: depth, max_forms: 7, template_names: false, avoid: Avoid::default(), printable_exprs: false }
     }
     pub fn derived(depth: u32) -> GenCfg {
-        GenCfg { derived: true, ticks: true, tick_rate: 8, set: false, max_depth: depth, max_forms: 5, template_names: true, avoid: Avoid::default() }
+        GenCfg { derived: true, ticks: true, tick_rate: 8, set: false, max_depth: depth, max_forms: 5, template_names: true, avoid: Avoid::default(), printable_exprs: false }
     }
 }
 
@@ -949,7 +951,7 @@ impl<'a, 'b> Gen<'a, 'b> {
                     // and the counter is bounded by wrapping it: not exposed in scope
                 }
                 _ => {
-                    let ty = self.gen_any_ty();
+                    let ty = if self.cfg.printable_exprs { self.gen_simple_ty() } else { self.gen_any_ty() };
                     let e = self.gen_expr(&ty, &scope, depth);
                     forms.push(Form::Expr(e));
                 }
